@@ -210,6 +210,9 @@ def sort_key(ty):
     return str(ty.sort()).replace(" ", "")
 
 
+MAP_SORTS = {}  # heap map name -> (domain sort, range sort)
+
+
 class Frame:
     __slots__ = ("vars", "parent", "nonlocals", "func")
 
@@ -304,6 +307,7 @@ class State:
         if m is None:
             m = z3.Const(f"{name}@0", z3.ArraySort(sort_dom, sort_rng))
             self.heap[name] = m
+            MAP_SORTS[name] = (sort_dom, sort_rng)
         return m
 
     def new_ref(self):
